@@ -130,28 +130,41 @@ def hex4? (a b c d : Char) : Option Nat :=
   | some x, some y, some z, some w => some (x * 4096 + y * 256 + z * 16 + w)
   | _, _, _, _ => none
 
-/-- body of a string literal after the opening quote, as UTF-16 code units (escapes) or code
-    points (literal characters); returns the units (reversed accumulator) and the rest after the
+/-- scanner state inside a string literal -/
+inductive SMode
+  | norm
+  /-- just after a backslash -/
+  | esc
+  /-- inside `\\uXXXX`: `k` hex digits read so far, with value `v` -/
+  | hex (k v : Nat)
+
+/-- body of a string literal after the opening quote, one character per step, as UTF-16 code
+    units (escapes) or code points (literal characters); returns the units and the rest after the
     closing quote.  Control characters are rejected (`strict=True`). -/
-def parseStrUnits : Str → List Nat → Option (List Nat × Str)
-  | [], _ => none
-  | '"' :: r, acc => some (acc.reverse, r)
-  | '\\' :: 'u' :: a :: b :: c :: d :: r, acc =>
-    match hex4? a b c d with
-    | some n => parseStrUnits r (n :: acc)
-    | none => none
-  | '\\' :: e :: r, acc =>
-    if e = '"' then parseStrUnits r (34 :: acc)
-    else if e = '\\' then parseStrUnits r (92 :: acc)
-    else if e = '/' then parseStrUnits r (47 :: acc)
-    else if e = 'b' then parseStrUnits r (8 :: acc)
-    else if e = 'f' then parseStrUnits r (12 :: acc)
-    else if e = 'n' then parseStrUnits r (10 :: acc)
-    else if e = 'r' then parseStrUnits r (13 :: acc)
-    else if e = 't' then parseStrUnits r (9 :: acc)
+def psu : SMode → Str → List Nat → Option (List Nat × Str)
+  | _, [], _ => none
+  | .norm, c :: r, acc =>
+    if c = '"' then some (acc.reverse, r)
+    else if c = '\\' then psu .esc r acc
+    else if c.toNat < 32 then none
+    else psu .norm r (c.toNat :: acc)
+  | .esc, e :: r, acc =>
+    if e = 'u' then psu (.hex 0 0) r acc
+    else if e = '"' then psu .norm r (34 :: acc)
+    else if e = '\\' then psu .norm r (92 :: acc)
+    else if e = '/' then psu .norm r (47 :: acc)
+    else if e = 'b' then psu .norm r (8 :: acc)
+    else if e = 'f' then psu .norm r (12 :: acc)
+    else if e = 'n' then psu .norm r (10 :: acc)
+    else if e = 'r' then psu .norm r (13 :: acc)
+    else if e = 't' then psu .norm r (9 :: acc)
     else none
-  | ['\\'], _ => none
-  | c :: r, acc => if c.toNat < 32 then none else parseStrUnits r (c.toNat :: acc)
+  | .hex k v, c :: r, acc =>
+    match hexVal? c with
+    | some d => if k = 3 then psu .norm r ((v * 16 + d) :: acc) else psu (.hex (k + 1) (v * 16 + d)) r acc
+    | none => none
+
+def parseStrUnits (s : Str) (acc : List Nat) : Option (List Nat × Str) := psu .norm s acc
 
 /-- combine surrogate pairs produced by `\uD8xx\uDCxx` escapes -/
 def unitsToChars : List Nat → Str
@@ -174,38 +187,49 @@ def takeDigits : Str → Str × Str
       | (d, rest) => (c :: d, rest)
     else ([], c :: r)
 
-/-- `-?(0|[1-9]\d*)(\.\d+)?([eE][+-]?\d+)?` -/
-def parseNumber (s : Str) : Option (JVal × Str) :=
-  let (neg, s1) := match s with
-    | '-' :: r => (true, r)
-    | _ => (false, s)
-  let (ip, s2) := takeDigits s1
-  if ip.isEmpty then none
-  else if ip.length > 1 ∧ ip.head? = some '0' then
+/-- `(\.\d+)?`: the matched text and the rest -/
+def parseFrac (s : Str) : Str × Str :=
+  match s with
+  | '.' :: r =>
+    let p := takeDigits r
+    if p.1.isEmpty then ([], s) else ('.' :: p.1, p.2)
+  | _ => ([], s)
+
+/-- `([eE][+-]?\d+)?`: the matched text and the rest -/
+def parseExp (s : Str) : Str × Str :=
+  match s with
+  | e :: r =>
+    if e = 'e' ∨ e = 'E' then
+      let sg : Str × Str := match r with
+        | '+' :: q => (['+'], q)
+        | '-' :: q => (['-'], q)
+        | _ => ([], r)
+      let p := takeDigits sg.2
+      if p.1.isEmpty then ([], s) else (e :: (sg.1 ++ p.1), p.2)
+    else ([], s)
+  | [] => ([], s)
+
+/-- `(0|[1-9]\d*)(\.\d+)?([eE][+-]?\d+)?` after the optional sign -/
+def parseNumBody (neg : Bool) (s : Str) : Option (JVal × Str) :=
+  let ip := takeDigits s
+  if ip.1.isEmpty then none
+  else if ip.1.length > 1 ∧ ip.1.head? = some '0' then
     -- Python's scanner matches only the leading "0"; what follows makes the document invalid
     none
   else
-    let (frac, s3) := match s2 with
-      | '.' :: r =>
-        let (fp, r') := takeDigits r
-        if fp.isEmpty then ([], s2) else ('.' :: fp, r')
-      | _ => ([], s2)
-    let (ex, s4) := match s3 with
-      | e :: r =>
-        if e = 'e' ∨ e = 'E' then
-          let (sg, r1) := match r with
-            | '+' :: q => (['+'], q)
-            | '-' :: q => (['-'], q)
-            | _ => ([], r)
-          let (ep, r2) := takeDigits r1
-          if ep.isEmpty then ([], s3) else (e :: (sg ++ ep), r2)
-        else ([], s3)
-      | [] => ([], s3)
-    if frac.isEmpty ∧ ex.isEmpty then
-      match decToNat ip with
-      | some n => some (.int (if neg then -(n : Int) else n), s4)
+    let fr := parseFrac ip.2
+    let ex := parseExp fr.2
+    if fr.1.isEmpty ∧ ex.1.isEmpty then
+      match decToNat ip.1 with
+      | some n => some (.int (if neg then -(n : Int) else n), ex.2)
       | none => none
-    else some (.float ((if neg then ['-'] else []) ++ ip ++ frac ++ ex), s4)
+    else some (.float ((if neg then ['-'] else []) ++ ip.1 ++ fr.1 ++ ex.1), ex.2)
+
+/-- `-?(0|[1-9]\d*)(\.\d+)?([eE][+-]?\d+)?` -/
+def parseNumber (s : Str) : Option (JVal × Str) :=
+  match s with
+  | '-' :: r => parseNumBody true r
+  | _ => parseNumBody false s
 
 def stripPrefix (p : Str) (s : Str) : Option Str :=
   if p.isPrefixOf s then some (s.drop p.length) else none
@@ -214,30 +238,32 @@ mutual
   /-- one JSON value, leading whitespace NOT skipped -/
   def parseVal : Nat → Str → Option (JVal × Str)
     | 0, _ => none
-    | fuel + 1, s =>
-      match s with
-      | '"' :: r =>
+    | _ + 1, [] => none
+    | fuel + 1, c :: r =>
+      if c = '"' then
         match parseStrLit r with
         | some (t, rest) => some (.str t, rest)
         | none => none
-      | '[' :: r =>
+      else if c = '[' then
         match skipWs r with
-        | ']' :: rest => some (.arr [], rest)
-        | r' =>
-          match parseElems fuel r' with
-          | some (l, rest) => some (.arr l, rest)
-          | none => none
-      | '{' :: r =>
+        | [] => none
+        | d :: r' =>
+          if d = ']' then some (.arr [], r')
+          else match parseElems fuel (d :: r') with
+            | some (l, rest) => some (.arr l, rest)
+            | none => none
+      else if c = '{' then
         match skipWs r with
-        | '}' :: rest => some (.obj [], rest)
-        | r' =>
-          match parseMembers fuel r' [] with
-          | some (kvs, rest) => some (.obj kvs, rest)
-          | none => none
-      | 'n' :: _ => (stripPrefix "null".toList s).map (fun r => (.null, r))
-      | 't' :: _ => (stripPrefix "true".toList s).map (fun r => (.bool true, r))
-      | 'f' :: _ => (stripPrefix "false".toList s).map (fun r => (.bool false, r))
-      | _ => parseNumber s
+        | [] => none
+        | d :: r' =>
+          if d = '}' then some (.obj [], r')
+          else match parseMembers fuel (d :: r') [] with
+            | some (kvs, rest) => some (.obj kvs, rest)
+            | none => none
+      else if c = 'n' then (stripPrefix "null".toList (c :: r)).map (fun x => (.null, x))
+      else if c = 't' then (stripPrefix "true".toList (c :: r)).map (fun x => (.bool true, x))
+      else if c = 'f' then (stripPrefix "false".toList (c :: r)).map (fun x => (.bool false, x))
+      else parseNumber (c :: r)
   /-- `value (ws , ws value)* ws ]`, input positioned at the first value -/
   def parseElems : Nat → Str → Option (List JVal × Str)
     | 0, _ => none
@@ -245,33 +271,39 @@ mutual
       match parseVal fuel s with
       | some (v, r) =>
         match skipWs r with
-        | ',' :: r' =>
-          match parseElems fuel (skipWs r') with
-          | some (l, rest) => some (v :: l, rest)
-          | none => none
-        | ']' :: rest => some ([v], rest)
-        | _ => none
+        | [] => none
+        | d :: r' =>
+          if d = ',' then
+            match parseElems fuel (skipWs r') with
+            | some (l, rest) => some (v :: l, rest)
+            | none => none
+          else if d = ']' then some ([v], r')
+          else none
       | none => none
   /-- `"key" ws : ws value (ws , ws "key" …)* ws }`, input positioned at the first key -/
   def parseMembers : Nat → Str → List (Str × JVal) → Option (List (Str × JVal) × Str)
     | 0, _, _ => none
-    | fuel + 1, s, acc =>
-      match s with
-      | '"' :: r =>
+    | _ + 1, [], _ => none
+    | fuel + 1, q :: r, acc =>
+      if q = '"' then
         match parseStrLit r with
         | some (k, r1) =>
           match skipWs r1 with
-          | ':' :: r2 =>
-            match parseVal fuel (skipWs r2) with
-            | some (v, r3) =>
-              match skipWs r3 with
-              | ',' :: r4 => parseMembers fuel (skipWs r4) (insertKV k v acc)
-              | '}' :: rest => some (insertKV k v acc, rest)
-              | _ => none
-            | none => none
-          | _ => none
+          | [] => none
+          | c :: r2 =>
+            if c = ':' then
+              match parseVal fuel (skipWs r2) with
+              | some (v, r3) =>
+                match skipWs r3 with
+                | [] => none
+                | d :: r4 =>
+                  if d = ',' then parseMembers fuel (skipWs r4) (insertKV k v acc)
+                  else if d = '}' then some (insertKV k v acc, r4)
+                  else none
+              | none => none
+            else none
         | none => none
-      | _ => none
+      else none
 end
 
 /-- `json.loads(text)`: `none` = ValueError.  Fuel = length + 1 is never exhausted (every
